@@ -125,9 +125,14 @@ def run_json(ctx):
         targets.append("Props/C20json.vo")
         if os.path.exists(os.path.join(ctx.coqdir, "Refuted", "C20json.v")):
             targets.append("Refuted/C20json.vo")
+    have_rt = os.path.exists(os.path.join(ctx.coqdir, "Props", "C20roundtrip.v"))
+    if have_rt:
+        targets.append("Props/C20roundtrip.vo")
     ensure_built(ctx, targets)
     if have_props:
         register_props(ctx, "C20json")
+    if have_rt:
+        register_props(ctx, "C20roundtrip")
 
     if ctx.replay:
         try:
